@@ -3,11 +3,12 @@ LEVEL = "other"
 CONTRACT_MODULES = ["postprocessing"]
 DEDUCTIVE = [("postprocessing", "kneeliverse.postprocessing.filter_clusters#ranked"),
              ("postprocessing", "kneeliverse.postprocessing.rank_corners_triangle"),
-             ("postprocessing", "kneeliverse.postprocessing.filter_clusters_corners")]
+             ("postprocessing", "kneeliverse.postprocessing.filter_clusters_corners"),
+             ("postprocessing", "kneeliverse.knee_ranking.smooth_ranking#def")]
 EXPLANATION = ("filter_clusters (left/linear/right ranking) proved for all inputs against an abstract contract of the clustering parameter (the C11 "
                "postcondition: labels start at 0, grow by 0/1, every label occurs - the last is lemma *_linkage_labels_onto in C11) and an "
                "uninterpreted smooth_ranking score: one kept knee per cluster, in cluster order, strictly increasing, and the kept member of a "
-               "multi-member cluster maximises the score (via the rank contract of C17). The corner variant is proved the same way with the corner-triangle score as a named specification function (rank_corners_triangle proved against it). Hull mode: bounded layer.")
+               "multi-member cluster maximises the score (via the rank contract of C17). The corner variant is proved the same way with the corner-triangle score as a named specification function (rank_corners_triangle proved against it). The score itself (smooth_ranking) is proved to be FIT[k] x relative height, relative height = |peak - y_k| / sum over the cluster with peak the highest member, FIT[k] the lf.r2 value of the segment (uninterpreted). Hull mode: bounded layer.")
 LEVEL_TEXT = ("Deductive for the three ranked modes of filter_clusters (one best-ranked member per cluster, strictly increasing) relative to the "
               "clustering contract and the score function; plus bounded exploration: filter_clusters in the three ranking modes (exactly one best-ranked member per cluster), hull mode (completes, at "
               "most one per cluster, none from clusters without a lower-hull point) and the corner variant, over curves x interior knee subsets "
